@@ -281,6 +281,36 @@ let rec sx_of_ty (t : ty) : string =
   | TServ ms -> "(serv" ^ String.concat "" (List.map (fun (i, t) -> " (" ^ hex i ^ " " ^ sx_of_ty t ^ ")") ms) ^ ")"
   | TClass (a, t) -> "(class (" ^ l a ^ ") " ^ sx_of_ty t ^ ")"
   | TFuture -> "future"
+(* ---------- C05: the memoising checkers as they are (mirror model Memo.v) ----------
+   m.c05.memo <env> <silence|error|equal> <queries>: one answer per query (1 / 0 / P panic / F fuel), the history stops at
+   the first P or F; then the final contents of gamma, sorted *)
+let c05memo a =
+  match a with
+  | [e; mode; qs] ->
+      let env = env_of e in
+      let qs = List.map (fun q -> match q with L [x; y] -> (ty_of x, ty_of y) | _ -> failwith "query") (items (parse_sx qs)) in
+      let fuel = nat_of_int 4000 in
+      let (planf, strict) = match mode with "equal" -> (plan_eq, false) | "error" -> (plan_sub, true) | _ -> (plan_sub, false) in
+      let rec go g qs acc = match qs with
+        | [] -> (Some g, List.rev acc)
+        | (x, y) :: r ->
+            let (g', res) = query planf env strict fuel g x y in
+            (match res with
+             | MOk -> go g' r ("1" :: acc) | MErr -> go g' r ("0" :: acc)
+             | MPanic -> (None, List.rev ("P" :: acc)) | MFuel -> (None, List.rev ("F" :: acc))) in
+      let (g, rs) = go [] qs [] in
+      let ans = String.concat "" rs in
+      (match g with
+       | None -> ans
+       | Some g ->
+           (* [history] is the function the theorems are about: it must agree with the fold above *)
+           let (g2, rs2) = history planf env strict fuel [] qs in
+           let rs2 = String.concat "" (List.map (fun r -> match r with MOk -> "1" | MErr -> "0" | MPanic -> "P" | MFuel -> "F") rs2) in
+           if rs2 <> ans || g2 <> g then "(model-inconsistent)" else
+           let ps = List.sort compare (List.map (fun (x, y) -> "(" ^ sx_of_ty x ^ " " ^ sx_of_ty y ^ ")") g) in
+           ans ^ " | " ^ String.concat " " ps)
+  | _ -> "(unknown-op m.c05.memo)"
+
 let rec sx_of_val (v : val0) : string =
   match v with
   | VNull -> "null" | VReserved -> "reserved"
@@ -520,7 +550,7 @@ let dispatch (op : string) (a : string list) : string =
   | "c01" | "c08" -> c01 op a
   | "c02" -> c02 op a
   | "c03" | "c04" | "c10" -> c03 op a
-  | "c05" -> c05 op a
+  | "c05" -> if op = "m.c05.memo" then c05memo a else c05 op a
   | "c07" -> c07 op a
   | "c09" -> c09 op a
   | "c11" -> c11 op a
